@@ -131,3 +131,59 @@ Definition spec_open_c (c : cipher) (kbpk header ek mac : list N) : option (list
 (* the key inside the confidential data: length in bits, then the key *)
 Definition spec_key_of (clear : list N) : list N :=
   firstn (N.to_nat (be_int (firstn 2 clear) / 8)) (skipn 2 clear).
+
+(* ---------------- header text, with the encoder's freedom ----------------
+   TR-31:2018 section 4: 16 fixed characters, then the optional blocks.  An
+   encoder is free to choose, per optional block, the short or the extended
+   form of the block length (with any length of the length field), the letter
+   case of every hex digit, and the size and filling of the pad block. *)
+Definition hex_digit (upper : bool) (n : N) : N :=
+  if n <? 10 then 48 + n else if upper then 55 + n else 87 + n.
+
+(* v written with one hex digit per element of [cases], most significant first *)
+Fixpoint hex_num (cases : list bool) (v : N) : list N :=
+  match cases with
+  | [] => []
+  | u :: r => hex_digit u ((v / 16 ^ lenN r) mod 16) :: hex_num r v
+  end.
+
+(* v written with w decimal digits *)
+Fixpoint dec_num (w : nat) (v : N) : list N :=
+  match w with
+  | O => []
+  | S w' => (48 + (v / 10 ^ N.of_nat w') mod 10) :: dec_num w' v
+  end.
+
+Inductive len_form :=
+| LenShort (cases : list bool)
+    (* 2 hex digits: the length of the whole block *)
+| LenExtended (cases_ll : list bool) (ll : N) (cases_len : list bool).
+    (* "00", 2 hex digits: the size ll of the length field in bytes, then
+       2*ll hex digits: the length of the whole block *)
+
+Definition opt_block_text (id data : list N) (f : len_form) : list N :=
+  match f with
+  | LenShort cs => id ++ hex_num cs (4 + lenN data) ++ data
+  | LenExtended c1 ll c2 =>
+      id ++ [48; 48] ++ hex_num c1 ll ++ hex_num c2 (6 + 2 * ll + lenN data) ++ data
+  end.
+
+Definition len_form_legal (data : list N) (f : len_form) : Prop :=
+  match f with
+  | LenShort cs => length cs = 2%nat /\ 4 + lenN data < 256
+  | LenExtended c1 ll c2 =>
+      length c1 = 2%nat /\ 0 < ll < 256 /\ length c2 = N.to_nat (2 * ll) /\
+      6 + 2 * ll + lenN data < 16 ^ (2 * ll)
+  end.
+
+Definition item := (list N * list N * len_form)%type.
+Definition item_text (it : item) : list N :=
+  let '(id, data, f) := it in opt_block_text id data f.
+
+(* version | 4-digit length of the whole key block | usage | algorithm | mode |
+   key version number | exportability | 2-digit number of optional blocks |
+   reserved | optional blocks (the pad block, if any, last) *)
+Definition spec_header_text (version usage alg mode vnum export reserved : list N)
+           (total_len : N) (items : list item) : list N :=
+  version ++ dec_num 4 total_len ++ usage ++ alg ++ mode ++ vnum ++ export ++
+  dec_num 2 (lenN items) ++ reserved ++ flat_map item_text items.
